@@ -25,6 +25,7 @@ ASSUMPTIONS = [
     'other-axis metadata and table type of the result are not constrained '
     'by the statement and are not compared',
 ]
+ANCHORS = ['Table.concat', 'concat']
 REQUIRED = ['concat_calls', 'operand_list_reused', 'branch_padding', 'branch_resort',
             'branch_passthrough', 'non_disjoint_refused', 'via_biom_concat',
             'via_table_concat', 'single_table_arg', 'axis_sample',
